@@ -74,7 +74,8 @@ class MessageToUserTlv(AbstractTlvBase):
     def unpack(cls, data: bytes) -> MessageToUserTlv:
         msg_to_user_tlv = cls.__empty()
         msg_to_user_tlv.tlv = CfdpTlv.unpack(data)
-        msg_to_user_tlv.check_type(MessageToUserTlv.TLV_TYPE)
+        if msg_to_user_tlv.tlv.tlv_type != cls.TLV_TYPE:
+            raise TlvTypeMissmatch(msg_to_user_tlv.tlv.tlv_type, cls.TLV_TYPE)
         return msg_to_user_tlv
 
     @classmethod
